@@ -435,6 +435,8 @@ func (c *Client) recv(keepaliveQuit chan<- struct{}) {
 		case stanza.StreamClosePacket:
 			// TCP messages should arrive in order, so we can expect to get nothing more after this occurs
 			c.transport.ReceivedStreamClose()
+			// The stream is over, also when the server closed it: report it so that it can be re-established
+			c.disconnected(c.Session.SMState)
 			return
 		case stanza.Message, stanza.Presence, *stanza.IQ:
 			// Only stanzas are counted for stream management, not nonzas (XEP-0198, section 4)
